@@ -3,6 +3,8 @@
 import json, subprocess
 log = subprocess.check_output("git -C /repo log --reverse --format='%h %s' 10c4525..HEAD", shell=True, text=True).splitlines()
 propmap = {
+ 'CopyDir resolves a source directory that is a symbolic link': 'C20', 'CopyDir derives the relative path with filepath.Rel': 'C20',
+ 'Backup removes a merge directory left beside the destination': 'C20',
  'removes the finished-marker of a left-over merge directory': 'C07 C03',
  'requested shard count below one': 'C14 C09',
  'chunk decoding never reads': 'C02 C11 C12', 'adopt merge output idempotently': 'C06 C07', 'merge rewrites live batch': 'C06 C04',
